@@ -762,10 +762,11 @@ type c09Case struct {
 	asserted string
 	method   string
 	kind     string // "" plain request, "shimopen", "shimdata"
+	path     string // request path of a plain request (default /p/a)
 }
 
 func c09Scenario(c c09Case, idx int) vx.Scenario {
-	name := fmt.Sprintf("c09/%d %v %s%s %q user=%q", idx, c.flags, c.method, c.kind, c.hdrLines, c.asserted)
+	name := fmt.Sprintf("c09/%d %v %s%s%s %q user=%q", idx, c.flags, c.method, c.kind, c.path, c.hdrLines, c.asserted)
 	return vx.Scenario{Name: name, PB: 0, Single: true, MaxSteps: 5000,
 		Setup: func(s *vs.Sched) func(*vs.Result) vx.Exec {
 			w := newWorld(s)
@@ -783,7 +784,11 @@ func c09Scenario(c c09Case, idx int) vx.Scenario {
 					body = "payload"
 				}
 				w.lists = []listReply{{ids: []string{"a"}}}
-				w.fetch["a"] = &fetchPlan{req: mk(c.method, "/p/a", body), user: c.asserted, userSet: true}
+				pth := "/p/a"
+				if c.path != "" {
+					pth = c.path
+				}
+				w.fetch["a"] = &fetchPlan{req: mk(c.method, pth, body), user: c.asserted, userSet: true}
 			case "shimopen":
 				w.lists = []listReply{{ids: []string{"o"}}}
 				w.fetch["o"] = &fetchPlan{req: mk("POST", "/websocket-shim/open", "ws://client.example/socket?x=1"), user: c.asserted, userSet: true}
@@ -936,7 +941,7 @@ func c09Scenarios(th bool) []vx.Scenario {
 		{"X-Inverting-Proxy-User-ID: u@example.com"},
 	}
 	authLines := [][]string{nil, {"Authorization: Bearer x"}, {"authorization: Bearer x"}, {"Authorization: Basic a", "Authorization: Bearer b"}, {"Authorization:", "Authorization: Bearer late"}}
-	asserted := []string{"u@example.com", "", "a,b@example.com"}
+	asserted := []string{"u@example.com", "", "a,b@example.com", "Alice.Smith@Example.COM"}
 	var out []vx.Scenario
 	cpb := 2
 	if th {
@@ -947,6 +952,13 @@ func c09Scenarios(th bool) []vx.Scenario {
 	out = append(out, c09Conc([]string{"--forward-user-id", "--shim-websockets", "--shim-path=websocket-shim"}, []string{"alice@example.com", "bob@example.com"}, true, cpb))
 	out = append(out, c09Conc([]string{"--forward-user-id", "--session-cookie-name=sess"}, []string{"alice@example.com", "bob@example.com", "carol@example.com"}, false, cpb-1))
 	idx := 0
+	// backend URLs that merely look like the shim's own (same leading characters, endings such as /poll):
+	// they are ordinary requests and get the same treatment
+	for _, pth := range []string{"/websocket-shim-v2/poll", "/websocket-shimmed/jobs/42/poll", "/websocket-shimx/open", "/websocket-shim.js", "/x/websocket-shim/poll"} {
+		idx++
+		out = append(out, c09Scenario(c09Case{flags: []string{"--shim-websockets", "--shim-path=websocket-shim", "--forward-user-id", "--strip-credentials"}, fwdUser: true, strip: true,
+			hdrLines: []string{"X-Inverting-Proxy-User-ID: evil@example.com", "Authorization: Bearer x"}, asserted: "u@example.com", method: "GET", path: pth}, idx))
+	}
 	for _, fu := range []bool{false, true} {
 		for _, st := range []bool{false, true} {
 			if !fu && !st {
